@@ -15,7 +15,7 @@ VERIF_DIR = os.path.dirname(os.path.abspath(__file__))
 
 
 class Ev:
-    __slots__ = ('idx', 'thread', 'kind', 'file', 'path', 'line', 'func', 'inv', 'arg', 'data', 'nsnap', 'njournal', 'prog')
+    __slots__ = ('idx', 'thread', 'kind', 'file', 'path', 'line', 'func', 'inv', 'arg', 'data', 'nsnap', 'njournal', 'prog', 'op')
 
     def __init__(self, idx, thread, kind, path, line, func, inv, arg):
         self.idx = idx
@@ -30,9 +30,21 @@ class Ev:
         self.data = None
         self.nsnap = None
         self.njournal = None
+        self.op = None          # 'return' events: 'return' | 'yield' | 'unwind' (what the interpreter stopped at)
 
     def __repr__(self):
         return f"<{self.kind} {self.file}:{self.line} {self.func} inv={self.inv}>"
+
+
+def return_kind(frame):
+    """What a 'return' event stands for (CPython sends it for a return, for a suspension and, with None, for an unwinding frame)."""
+    import dis
+    name = dis.opname[frame.f_code.co_code[frame.f_lasti]]
+    if name.startswith('RETURN_'):
+        return 'return'
+    if name in ('YIELD_VALUE', 'YIELD_FROM'):
+        return 'yield'
+    return 'unwind'
 
 
 class Run:
@@ -85,6 +97,7 @@ class Forwarder:
         self.run = Run()
         self._frames = {}
         self._ninv = 0
+        self._last_kind = {}
         self._lock_idx = 0
         self.use_call_tracing = use_call_tracing
 
@@ -106,6 +119,12 @@ class Forwarder:
         ev = Ev(len(self.run.events) if is_prog else -1, threading.current_thread().name, event, path, frame.f_lineno,
                 frame.f_code.co_name, self._inv(frame) if is_prog else 0, arg)
         ev.prog = is_prog
+        if is_prog and event == 'return':
+            ev.op = return_kind(frame)
+            if ev.op == 'yield' and self._last_kind.get(ev.inv) == 'exception':
+                ev.op = 'unwind'    # close()/throw(): the exception was raised at the yield, the generator is not suspended
+        if is_prog:
+            self._last_kind[ev.inv] = event
         if is_prog:
             self.run.events.append(ev)
             if self.probe is not None:
